@@ -74,6 +74,13 @@ func NewMembershipProof(index, version uint64, auditPath AuditPath, hasher hashi
 
 // Verify verifies a membership proof
 func (p MembershipProof) Verify(eventDigest []byte, expectedRootHash hashing.Digest) (correct bool) {
+	// a proof whose audit path lacks a position the verifier needs is
+	// invalid: reject it instead of letting the visitor's panic escape
+	defer func() {
+		if r := recover(); r != nil {
+			correct = false
+		}
+	}()
 
 	// build a visitable pruned tree and then visit it to recompute root hash
 	visitor := newComputeHashVisitor(p.hasher, p.AuditPath)
@@ -98,6 +105,13 @@ func NewIncrementalProof(start, end uint64, auditPath AuditPath, hasher hashing.
 }
 
 func (p IncrementalProof) Verify(startDigest, endDigest hashing.Digest) (correct bool) {
+	// a proof whose audit path lacks a position the verifier needs is
+	// invalid: reject it instead of letting the visitor's panic escape
+	defer func() {
+		if r := recover(); r != nil {
+			correct = false
+		}
+	}()
 
 	// build two visitable pruned trees and then visit them to recompute root hash
 	visitor := newComputeHashVisitor(p.hasher, p.AuditPath)
